@@ -129,6 +129,7 @@ structure Effect (s s' : Shared) : Prop where
   handled : s'.handled = s.handled
   rxOpen : s'.rxOpen = s.rxOpen
   rxStopped : s'.rxStopped = s.rxStopped
+  stoppedByOther : s'.stoppedByOther = s.stoppedByOther
   drainedExits : s'.drainedExits = s.drainedExits
   status : s.status ≤ s'.status
   closed : s.word.closed = true → s'.word.closed = true
@@ -211,5 +212,13 @@ theorem prefix_unique {α : Type} (x : α) (a1 a2 b1 b2 : List α) (h1 : x ∉ a
       simp only [List.cons_append, List.cons.injEq] at e
       obtain ⟨rfl, e⟩ := e
       rw [ih a2 (fun h => h1 (List.mem_cons_of_mem _ h)) (fun h => h2 (List.mem_cons_of_mem _ h)) e]
+
+/-- the marker, once in a marker-last list, is its last element: a prefix containing it is everything -/
+theorem markerLast_prefix_all (a b : List Item) (h : markerLast (a ++ b) = true) (hm : Item.drain ∈ a) :
+    b = [] := by
+  obtain ⟨a1, a2, rfl⟩ := List.append_of_mem hm
+  have := markerLast_split (a1 ++ Item.drain :: a2 ++ b) a1 (a2 ++ b) h (by simp)
+  simpa using (List.append_eq_nil_iff.mp this).2
+
 
 end Admission
